@@ -977,8 +977,18 @@ func (m *lfsModule) handleHTTPUploadComplete(w http.ResponseWriter, r *http.Requ
 		return
 	}
 
+	// The envelope's size and checksum cover every uploaded part, so the stored
+	// object must be assembled from exactly those parts, in order.
+	if len(req.Parts) != len(session.Parts) {
+		m.lfsWriteHTTPError(w, requestID, session.Topic, http.StatusBadRequest, "invalid_part", "parts must list every uploaded part exactly once")
+		return
+	}
 	completed := make([]types.CompletedPart, 0, len(req.Parts))
-	for _, part := range req.Parts {
+	for i, part := range req.Parts {
+		if part.PartNumber != int32(i+1) {
+			m.lfsWriteHTTPError(w, requestID, session.Topic, http.StatusBadRequest, "invalid_part", "parts must be listed in ascending order")
+			return
+		}
 		etag, ok := session.Parts[part.PartNumber]
 		if !ok || etag == "" || part.ETag == "" || etag != part.ETag {
 			m.lfsWriteHTTPError(w, requestID, session.Topic, http.StatusBadRequest, "invalid_part", "part etag mismatch")
